@@ -798,6 +798,10 @@ impl Version {
         let mut result: f64 = 10. * starting_multiple_bytes;
         while level > 1 {
             result *= 10.;
+            #[cfg(feature = "verif_hooks")]
+            {
+                result = crate::verif::level_growth(result);
+            }
             level -= 1;
         }
 
